@@ -41,8 +41,9 @@ ASSUMPTIONS = [
     "mp partitioning, canonical HF reference",
     "blocks/orders: quick pp ph,ph 0-2; ph,pphh and pphh,ph 1; pphh,pphh 0; "
     "ip h,h and ea p,p 0-2; thorough adds ph,ph 3, ip/ea couplings to "
-    "hhp/pph order 1 and their diagonal order 0, dip/dea order <= 1, "
-    "subtract_gs off",
+    "hhp/pph order 1 and their diagonal order 0, dip/dea order <= 1; "
+    "subtract_gs=False on the same instance for the lowest diagonal block "
+    "(quick orders 0 and 2, thorough all)",
     "partial: the general statement for all orders is not a Coq theorem; "
     "the Wick step of every matrix element is covered by C01",
 ]
@@ -160,6 +161,54 @@ def run(ctx):
                 top = ranked[:max(1, len(ranked) // 4)]
                 pairs = rng.sample(top, min(len(top), n_s - 2)) + \
                     rng.sample(pairs, 2)
+            # the same instance asked with subtract_gs=False after the
+            # default: lowest diagonal block (the two differ by E0^(n) on the
+            # diagonal)
+            lowest = isr_explicit.CLASSES[variant][0][0]
+            if bs == ks == lowest and (not quick or order in (0, 2)):
+                ukey = key + ("unshifted",)
+                if ukey not in exprs:
+                    try:
+                        exprs[ukey] = mats[variant].isr_matrix_block(
+                            order, f"{bs},{ks}",
+                            NAMES[bs][0] + "," + NAMES[ks][1],
+                            subtract_gs=False)
+                    except Exception as ex:
+                        ctx.violation(f"C03:block-exception:{ukey}",
+                                      f"isr_matrix_block raised {ex!r}", {},
+                                      False)
+                        exprs[ukey] = None
+                if exprs[ukey] is not None:
+                    diag = [(I, I) for I in range(len(X.configs[bs]))]
+                    for I, J in rng.sample(diag, 2) + pairs[:2]:
+                        (oi, vi), (oj, vj) = X.configs[bs][I], \
+                            X.configs[ks][J]
+                        val = evaluate(model, exprs[ukey], bo + bv + ko + kv,
+                                       list(oi) + list(vi) + list(oj)
+                                       + list(vj))
+                        want = X.secular(bs, I, ks, J,
+                                         subtract_gs=False)[order]
+                        ctx.case(key=(ukey, space.seed, I, J),
+                                 nontrivial=True,
+                                 kind=f"{variant}:{bs},{ks}:{order}:unshifted")
+                        if not ctx.obligation(
+                                f"{variant} M^({order})[{bs},{ks}] "
+                                f"subtract_gs=False {oi}{vi}|{oj}{vj} (model "
+                                f"{space.seed})", val == want):
+                            ctx.violation(
+                                f"C03:secular-unshifted:{variant}:{bs},{ks}:"
+                                f"order{order}",
+                                "secular matrix element requested with "
+                                "subtract_gs=False (after the default request "
+                                "on the same instance) differs from <I|H|J> "
+                                "between explicitly constructed intermediate "
+                                "states",
+                                {"variant": variant, "block": f"{bs},{ks}",
+                                 "order": order, "subtract_gs": False,
+                                 "bra": (oi, vi), "ket": (oj, vj),
+                                 "model": {"nocc": 3, "nvirt": 3,
+                                           "seed": space.seed},
+                                 "derived": val, "explicit": want}, True)
             for I, J in pairs:
                 (oi, vi), (oj, vj) = X.configs[bs][I], X.configs[ks][J]
                 val = evaluate(model, expr, bo + bv + ko + kv,
